@@ -63,6 +63,25 @@ func TestC12(t *testing.T) {
 				o.Dict = "u8"
 			}
 		}
+		fan := !long && pct(t, "fancross", 2)
+		if fan {
+			// a related record's dictionary crosses the 16-bit limit while the
+			// main record stays small, between small and attribute-less batches
+			plan.FanCross = true
+			plan.MinBatches, plan.MaxBatches = 3, 6
+			plan.Interleave = false
+			o.Dict = rapid.SampledFrom([]string{"u32", "", "u16", "u64"}).Draw(t, "fandict")
+		}
+		big := !long && !fan && thorough() && pct(t, "big", 1)
+		if big {
+			// dictionary indexes widening from 16 to 32 bits, overflowing or
+			// being reset at the 16-bit limit: histories crossing 65,535
+			// distinct values (as in C04/C13)
+			plan.Big = true
+			plan.MinBatches, plan.MaxBatches = 3, 4
+			plan.Interleave = false
+			o.Dict = rapid.SampledFrom([]string{"u32", "", "u16", "u64"}).Draw(t, "bigdict")
+		}
 		c, _ := genOptionHistory(t, plan)
 		c.Options = o
 		res, err := RunStream(c, RunConfig{KeepBAR: true})
@@ -83,6 +102,12 @@ func TestC12(t *testing.T) {
 		}
 		if long {
 			labels = append(labels, "long_history_12_to_30_batches")
+		}
+		if big {
+			labels = append(labels, "history_crossing_65535")
+		}
+		if fan {
+			labels = append(labels, "related_record_crossing_65535")
 		}
 		maxPayloads := 0
 		for _, b := range res.Batches {
